@@ -39,8 +39,8 @@ LEVEL_TEXT = {
             "(operator trees of every arity the model has); so a coherent world stays coherent under every assignment that returns normally, and in a "
             "coherent world every immediately bound property equals its expression recomputed from scratch. (3) Growth (PropGrow.v): coherence is established "
             "and kept by every history that creates properties, attaches plain observers, binds fresh properties (immediate mode, expressions over existing "
-            "properties incl. bound ones, repeated inputs) and assigns to inputs; also by histories that bind existing unbound properties (which may have readers) and call reset(). "
-            "PARTIAL: observers that write, direct rebinding of a bound property, moves and "
+            "properties incl. bound ones, repeated inputs) and assigns to inputs; also by histories that bind existing properties, unbound or already bound (which may have readers; rebinding is reset() then assignment), and call reset(). "
+            "PARTIAL: observers that write, moves and "
             "destruction between assignments are covered by the extracted checker check_c02 on every reached world and by correspondence; known finding "
             "KF-C02-aborted-walk (an exception cutting a notification walk short) is re-confirmed on every run.", '6/C02'),
     'C03': ("Machine-checked on the executable model of Property::setHelper: an equal value changes nothing and logs nothing; any other value notifies every "
